@@ -310,3 +310,28 @@ def recompaction_keeps_live_entries(ninja):
                 bad.append(('recompaction-loses-live-entry', '%s (log %d -> %d records) is not a no-op after a successful build: %s' % (name, before, after, p.stdout.decode(errors='replace').strip()[-250:])))
     finally: shutil.rmtree(d, ignore_errors=True)
     return bad
+
+def exit_codes(ninja):
+    """C05 on the real binary: a command that exits with status N (any N in 1..255, including the 128+signal range the shell uses):
+    ninja's exit status is non-zero and is N, the dependent is not started, nothing is recorded, the next run tries the command again,
+    and an independent command that was already running is waited for and recorded"""
+    bad = []
+    for code in (1, 2, 3, 126, 127, 128, 129, 131, 137, 143, 255):      # (130 is ExitInterrupted by convention: ninja treats it as an interrupt)
+        d = mk('c05x')
+        try:
+            open(d + '/build.ninja', 'w').write('rule f\n  command = echo ran >> a.count; exit %d\nrule t\n  command = touch $out\nrule slow\n  command = sleep 0.3; touch $out\n'
+                                                'build a: f\nbuild b: t a\nbuild c: slow\nbuild all: phony b c\ndefault all\n' % code)
+            p = subprocess.run([ninja, '-C', d, '-j2'], stdout=subprocess.PIPE, stderr=subprocess.STDOUT, timeout=60)
+            txt = p.stdout.decode(errors='replace')
+            if p.returncode == 0: bad.append(('exit-status', 'a command exited with status %d and ninja exited 0: %s' % (code, txt[-150:])))
+            elif p.returncode != code: bad.append(('exit-status', 'a command exited with status %d, ninja exited with %d' % (code, p.returncode)))
+            if os.path.exists(d + '/b'): bad.append(('exit-status', 'status %d: the dependent of the failed command was built' % code))
+            if not os.path.exists(d + '/c'): bad.append(('exit-status', 'status %d: the independent command that was already running was not run to completion' % code))
+            log = open(d + '/.ninja_log').read() if os.path.exists(d + '/.ninja_log') else ''
+            if '\ta\t' in log: bad.append(('exit-status', 'status %d: the failed command has a build log entry' % code))
+            if '\tc\t' not in log: bad.append(('exit-status', 'status %d: the independent command that completed has no build log entry' % code))
+            p2 = subprocess.run([ninja, '-C', d, '-j2'], stdout=subprocess.PIPE, stderr=subprocess.STDOUT, timeout=60)
+            n = len(open(d + '/a.count').read().split()) if os.path.exists(d + '/a.count') else 0
+            if n != 2 or p2.returncode == 0: bad.append(('exit-status', 'status %d: the next run did not try the failed command again (ran %d times, second exit %d)' % (code, n, p2.returncode)))
+        finally: shutil.rmtree(d, ignore_errors=True)
+    return bad
